@@ -129,6 +129,10 @@ pub struct PairCase {
     /// must still apply the rest.
     #[serde(default)]
     pub receiver_removed_other: bool,
+    /// The receiver has run a liveness evaluation: the member (one heartbeat only) is in its dead
+    /// set but not yet scheduled for deletion, so it must still be advertised in the digest.
+    #[serde(default)]
+    pub receiver_evaluated: bool,
 }
 
 /// Spec-level apply of a delta on a copy (written from ALGORITHM.md / README).
@@ -213,6 +217,9 @@ pub fn exec_pair(case: &PairCase, tally: &mut Tally) -> Result<(), Failure> {
     if case.receiver_removed_other {
         tally.label("receiver_removed_another_member");
     }
+    if case.receiver_evaluated {
+        tally.label("member_dead_at_receiver_not_scheduled");
+    }
     Ok(())
 }
 
@@ -275,6 +282,9 @@ async fn exec_pair_body(case: &PairCase, with_clock: bool) -> Result<PairFacts, 
     }
     let (gc_s, max_s) = (case.sender.gc, case.sender.max);
     let (gc_r, max_r) = case.receiver.as_ref().map(|c| (c.gc, c.max)).unwrap_or((0, 0));
+    if case.receiver_evaluated && !case.self_member {
+        r.verif_update_nodes_liveness();
+    }
     let syn = r.verif_create_syn_message();
     // Sender computes the delta from the receiver's own digest.
     let reply = match case.budget {
@@ -512,7 +522,7 @@ pub fn run_c14(ctx: &Ctx, report: &mut Report) {
                     budgets.extend(truncation_budgets(&sender, from).into_iter().map(Some));
                 }
                 for b in budgets {
-                    let case = PairCase { sender: sender.clone(), receiver: receiver.clone(), budget: b, self_member: false, receiver_removed_other: false };
+                    let case = PairCase { sender: sender.clone(), receiver: receiver.clone(), budget: b, self_member: false, receiver_removed_other: false, receiver_evaluated: n % 5 == 0 };
                     trials += 1;
                     exec_pair(&case, tally).map_err(|f| (f, serde_json::to_value(&case).unwrap()))?;
                 }
@@ -544,11 +554,11 @@ fn copy_strategy(vmax: u64, max_entries: usize) -> impl Strategy<Value = CopySpe
 
 fn pair_strategy() -> impl Strategy<Value = PairCase> {
     let vmax = prop_oneof![3 => Just(12u64), 1 => Just(1_000_000u64)];
-    vmax.prop_flat_map(|vmax| (copy_strategy(vmax, 4), proptest::option::weighted(0.85, copy_strategy(vmax, 4)), proptest::option::weighted(0.4, 100u32..600), prop_oneof![3 => Just(false), 1 => Just(true)], prop_oneof![3 => Just(false), 1 => Just(true)]))
-        .prop_map(|(sender, receiver, budget, self_member, receiver_removed_other)| {
+    vmax.prop_flat_map(|vmax| (copy_strategy(vmax, 4), proptest::option::weighted(0.85, copy_strategy(vmax, 4)), proptest::option::weighted(0.4, 100u32..600), prop_oneof![3 => Just(false), 1 => Just(true)], prop_oneof![3 => Just(false), 1 => Just(true)], prop_oneof![2 => Just(false), 1 => Just(true)]))
+        .prop_map(|(sender, receiver, budget, self_member, receiver_removed_other, receiver_evaluated)| {
             // a node always knows itself
             let receiver = if self_member { Some(receiver.unwrap_or(CopySpec { gc: 0, max: 0, entries: vec![] })) } else { receiver };
-            PairCase { sender, receiver, budget, self_member, receiver_removed_other }
+            PairCase { sender, receiver, budget, self_member, receiver_removed_other, receiver_evaluated }
         })
 }
 
@@ -581,6 +591,10 @@ pub struct ApplyCase {
 }
 
 pub fn member_n(i: u8) -> WId {
+    if i == 3 {
+        // the receiver itself (a node restarted under the same id whose peers hold its old state)
+        return WId::from_real(&simple_id("r", 0, 7602));
+    }
     WId::v4(&format!("m{i}"), 0, 7700 + i as u16)
 }
 
@@ -704,7 +718,10 @@ pub fn exec_apply(case: &ApplyCase, tally: &mut Tally, prop: &str) -> Result<(),
     if case.twice {
         tally.label("delivered_twice");
     }
-    if case.synack && deltas.iter().any(|d| (d.id.port - 7700) as usize >= case.copies.len()) {
+    if deltas.iter().any(|d| d.id.port == 7602) {
+        tally.label("delta_about_the_receiver_itself");
+    }
+    if case.synack && deltas.iter().any(|d| d.id.port >= 7700 && (d.id.port - 7700) as usize >= case.copies.len()) {
         tally.label("just_created_member");
     }
     if nontrivial {
